@@ -316,7 +316,8 @@ C03(g, ev, g2) ==
                  /\ Cardinality(NewsOk(ev)) = Max2(1, g2.cfg.min)
                  /\ Cardinality(PoolOf(g2)) = Max2(1, g2.cfg.min)),
      Cl("C03_b", NewsOk(ev) # {} /\ ev.op # "done" /\ ~(ev.op = "resolve" /\ NChans(g) = 0),
-                 \/ (ev.op = "resolve" /\ emptyPool /\ Cardinality(NewsOk(ev)) <= Max2(1, g.cfg.min))
+                 \/ ((emptyPool \/ (ev.op = "state" /\ ev.s = "SHUTDOWN" /\ PoolOf(g) = {ConnCh(g, ev.c)}))
+                      /\ ev.op \in {"resolve", "state"} /\ Cardinality(NewsOk(ev)) <= Max2(1, g.cfg.min))
                  \/ /\ ev.op = "pick" /\ ev.res = "NOSC" /\ PickerOk(g, ev)
                     /\ Cardinality(NewsOk(ev)) = 1
                     /\ Cardinality(PoolOf(g)) < g.cfg.max
@@ -347,7 +348,8 @@ C04(g, ev, g2) ==
                  /\ ev.wb.nr = Cardinality({x \in PoolOf(g2) : CurSt(g2, x) = "READY"})
                  /\ ev.wb.nc = Cardinality({x \in PoolOf(g2) : CurSt(g2, x) = "CONNECTING"})
                  /\ ev.wb.nt = Cardinality({x \in PoolOf(g2) : CurSt(g2, x) = "TF"})),
-     Cl("C04_f", StEntries(ev) # {}, ev.op = "state") }
+     \* a publication made by any other kind of event (harmless re-publication) must be consistent too: C04_a is evaluated on every event
+     Cl("C04_f", StEntries(ev) # {} /\ ev.op # "state", Last(g2.pubs).st = Agg(g2) /\ Last(g2.pubs).ready = ReadySet(g2)) }
 
 C05(g, ev, g2) ==
   { Cl("C05_a", ev.op \notin {"reset", "end", "stress"}, ev.res # "PANIC" /\ ev.probe # "PANIC"),
@@ -389,9 +391,9 @@ C07(g, ev, g2) ==
                      old == g.chans[h].cur
                  IN /\ Cardinality(CCKinds(ev, "rm")) = 1
                     /\ \A i \in CCKinds(ev, "rm") : ev.cc[i].c = old),
-     Cl("C07_e", ev.op \in {"resolve", "state", "rerr", "advance", "factory"} \/ (IsPickEv(ev) /\ ev.op # "pick"),
-                 \* connections are created only by resolver updates, picks (growth) and completions (refresh)
-                 ev.op = "resolve" \/ NewsAll(ev) = {}) }
+     Cl("C07_e", ev.op \in {"rerr", "advance", "factory"} \/ (IsPickEv(ev) /\ ev.op # "pick"),
+                 \* resolver errors, the clock, the factory switch and the delivery of a waiting pick never create connections
+                 NewsAll(ev) = {}) }
 
 C08(g, ev, g2) ==
   LET h == PHome(g, ev)
@@ -448,7 +450,11 @@ C20(g, ev, g2) ==
      Cl("C20_b", NewsOk(ev) # {},
                  \A i \in NewsOk(ev) : ev.cc[i].av = g2.av /\ Con(ev.cc[i].c)),
      Cl("C20_c", isSwap, g2.conns[ev.c].av = g2.av),
-     Cl("C20_d", ev.op = "rerr", ev.cc = <<>> /\ ev.res = "OK") }
+     \* a resolver error touches no connection; if the balancer publishes at all, the publication is the unchanged aggregate and ready set
+     Cl("C20_d", ev.op = "rerr",
+                 /\ ev.res = "OK"
+                 /\ \A i \in DOMAIN ev.cc : ev.cc[i].k = "st"
+                 /\ (StEntries(ev) # {} => (Last(g2.pubs).st = Agg(g2) /\ Last(g2.pubs).ready = ReadySet(g2) /\ g.pubs # <<>> /\ Last(g2.pubs).st = Last(g.pubs).st))) }
 
 Clauses(g, ev, g2) ==
   C01(g, ev, g2) \cup C02(g, ev, g2) \cup C03(g, ev, g2) \cup C04(g, ev, g2) \cup C05(g, ev, g2) \cup C06(g, ev, g2)
